@@ -2155,6 +2155,37 @@ func (e *exec) adoptCrash(ci *image, lower, upper *tsdbmodel.Model) {
 			}
 		}
 	}
+	// the newest in-order sample of a series is the one recovery kept, not the one the killed commit would have left
+	hmin := int64(math.MaxInt64)
+	if e.headInit() {
+		hmin = e.db.Head().MinTime()
+	}
+	for i, us := range nm.Series {
+		if us.Last == nil {
+			continue
+		}
+		if c := us.Cells[us.Last.T]; c != nil && !c.Deleted && c.Has(*us.Last) {
+			continue
+		}
+		us.Last = nil
+		if l := lower.Series[i].Last; l != nil {
+			if c := us.Cells[l.T]; c != nil && !c.Deleted {
+				cp := *l
+				us.Last = &cp
+			}
+		}
+		// a commit recovered in part: the newest surviving in-order sample above that
+		for _, t := range tsdbmodel.SortedTimes(us.Cells) {
+			c := us.Cells[t]
+			if c.Deleted || c.OOOHead || c.Zombie || t < hmin || len(c.Cands) == 0 {
+				continue
+			}
+			if us.Last == nil || t > us.Last.T {
+				cp := c.Cands[len(c.Cands)-1]
+				us.Last = &cp
+			}
+		}
+	}
 	e.m = nm
 	e.restarts++
 	e.res.Count("fault:dirty-restart", 1)
